@@ -284,6 +284,7 @@ def r5(run: Run, src, g, em, rt):
 
 
 def run(run: Run):
+    from .common import cached_guard as _cached_guard
     src = get_source()
     g = get_grammar(src)
     em = get_emission(src)
@@ -294,12 +295,12 @@ def run(run: Run):
     run.rule('C13.R4', 'error vocabulary: table = Excel\'s seven error values; every returned error string is in it')
     run.rule('C13.R5', 'IFS stride, pairing, #N/A default, laziness')
     run.rule('C13.R6', 'argument plumbing of IF/IFS/IFERROR equals the confirmed reference')
-    run.guard('C13.R1', r1, run, src, g, em, rt)
-    run.guard('C13.R2', check_atomic, run, 'C13.R2', src, em, FUNCS)
-    run.guard('C13.R3', r3, run, src, g, em, rt)
-    run.guard('C13.R4', r4, run, rt)
-    run.guard('C13.R5', r5, run, src, g, em, rt)
-    run.guard('C13.R6', check_plumbing, run, 'C13.R6', src, em, rt, FUNCS)
+    _cached_guard(run, 'C13.R1', r1, src, g, em, rt)
+    _cached_guard(run, 'C13.R2', check_atomic, 'C13.R2', src, em, FUNCS)
+    _cached_guard(run, 'C13.R3', r3, src, g, em, rt)
+    _cached_guard(run, 'C13.R4', r4, rt)
+    _cached_guard(run, 'C13.R5', r5, src, g, em, rt)
+    _cached_guard(run, 'C13.R6', check_plumbing, 'C13.R6', src, em, rt, FUNCS)
     from . import c03 as _c03
     from .common import borrow as _b
     from ..callgraph import get_callgraph as _g
